@@ -74,8 +74,38 @@ def impl_path(impl):
     return impl
 
 
-def run_impl(hists, impl, wd, jobs=8, batch=30, tag='b'):
-    """execute the histories on the real library; returns list of dict(h, status, lay, obs, script)"""
+BASE_WATCHDOG = 90          # seconds for one history run alone (a history takes < 2 s on an idle machine)
+CONFIRM_FACTOR = 4          # serial confirmation runs get BASE_WATCHDOG * CONFIRM_FACTOR
+CONFIRMED = {}              # failure kind -> True once a failure of that kind has been confirmed in this check run
+
+
+def run_alone(h, impl, wd, tag, timeout):
+    """one history, one mpiexec.  status ok / hang (watchdog, partial log) / crash (partial log, launcher
+    returned an error) / norun (nothing was logged: the harness never started)"""
+    t1, b1 = G.batch_script([h])
+    r1 = S.run_script(t1, impl_path(impl), None, wd, tag, want_model=False, timeout=timeout)
+    try:
+        # a history whose log is complete has run, whatever happened to the launcher afterwards
+        lay, obs = G.observe(h, r1.impl, b1[0])
+        return dict(h=h, status='ok', lay=lay, obs=obs)
+    except (KeyError, IndexError, ValueError) as e:
+        if not r1.impl:
+            return dict(h=h, status='norun', lay=None, obs=None, detail='launcher produced no log: ' + (r1.stdout or '')[-300:])
+        if r1.hang:
+            return dict(h=h, status='hang', lay=None, obs=None,
+                        detail='watchdog (%d s); last logged line: %s' % (timeout, max(r1.impl)))
+        return dict(h=h, status='crash', lay=None, obs=None, detail=(r1.crash or str(e))[-500:])
+
+
+def run_impl(hists, impl, wd, jobs=8, batch=30, tag='b', stats=None):
+    """execute the histories on the real library; returns list of dict(h, status, lay, obs).
+    Phase 1 (parallel): batches; a history whose log is incomplete is rerun alone.
+    Phase 2 (serial, nothing else running): every hang / crash / start-up failure of phase 1 is a SUSPECT
+    only; it is rerun alone with a CONFIRM_FACTOR times longer watchdog, twice, and reported only if it
+    fails both times (a deadlock or a crash of the library is deterministic; a watchdog that expired or a
+    launcher that stalled because the machine is loaded is not).  Once one failure of a kind is confirmed,
+    further suspects of that kind are not confirmed again (status <kind>-unconfirmed, counted, not judged)."""
+    stats = stats if stats is not None else {}
     groups = {}
     for i, h in enumerate(hists):
         groups.setdefault(h.np, []).append(i)
@@ -84,60 +114,60 @@ def run_impl(hists, impl, wd, jobs=8, batch=30, tag='b'):
         for j in range(0, len(idxs), batch):
             batches.append(idxs[j:j + batch])
     res = [None] * len(hists)
-    slow_retries = [12]
 
     def one(args):
         bi, idxs = args
         hs = [hists[i] for i in idxs]
         text, bases = G.batch_script(hs)
-        r = S.run_script(text, impl_path(impl), None, wd, '%s%d' % (tag, bi), want_model=False, timeout=30 + 3 * len(hs))
+        r = S.run_script(text, impl_path(impl), None, wd, '%s%d' % (tag, bi), want_model=False, timeout=60 + 6 * len(hs))
         out = []
         for h, i, base in zip(hs, idxs, bases):
-            # a history whose log is complete has run, whatever happened to the launcher afterwards
-            # (mpiexec start-up / tear-down stalls on a loaded machine are not library hangs)
             try:
                 lay, obs = G.observe(h, r.impl, base)
                 out.append((i, dict(h=h, status='ok', lay=lay, obs=obs)))
-                continue
             except (KeyError, IndexError, ValueError):
-                pass
-            # rerun alone
-            t1, b1 = G.batch_script([h])
-            r1 = S.run_script(t1, impl_path(impl), None, wd, '%s%d-%d' % (tag, bi, i), want_model=False, timeout=60)
-            for attempt in range(2):
-                if (r1.hang or (r1.crash and not r1.impl)) and slow_retries[0] > 0:
-                    # watchdog on a loaded machine, or nothing was logged (the harness never started):
-                    # patient retries; a genuine deadlock hangs again and is reported
-                    slow_retries[0] -= 1
-                    r1 = S.run_script(t1, impl_path(impl), None, wd, '%s%d-%dr%d' % (tag, bi, i, attempt), want_model=False, timeout=240)
-            try:
-                lay, obs = G.observe(h, r1.impl, b1[0])
-                out.append((i, dict(h=h, status='ok', lay=lay, obs=obs)))
-            except (KeyError, IndexError, ValueError) as e:
-                if not r1.impl:
-                    out.append((i, dict(h=h, status='norun', lay=None, obs=None, detail='launcher produced no log: ' + (r1.stdout or '')[-300:])))
-                elif r1.hang:
-                    out.append((i, dict(h=h, status='hang', lay=None, obs=None, detail='watchdog; last logged line: %s' % (max(r1.impl) ,))))
-                else:
-                    out.append((i, dict(h=h, status='crash', lay=None, obs=None, detail=(r1.crash or str(e))[-500:])))
+                out.append((i, run_alone(h, impl, wd, '%s%d-%d' % (tag, bi, i), BASE_WATCHDOG)))
         return out
 
     with cf.ThreadPoolExecutor(max_workers=jobs) as ex:
         for out in ex.map(one, list(enumerate(batches))):
             for i, d in out:
                 res[i] = d
+    # ---- phase 2: serial confirmation of the suspects, smallest history first
+    suspects = sorted([i for i, d in enumerate(res) if d['status'] != 'ok'], key=lambda i: (len(hists[i].lines), i))
+    for i in suspects:
+        kind = res[i]['status']
+        stats['suspects_' + kind] = stats.get('suspects_' + kind, 0) + 1
+        if CONFIRMED.get(kind):
+            res[i]['status'] = kind + '-unconfirmed'
+            continue
+        last = None
+        for attempt in (1, 2):
+            last = run_alone(hists[i], impl, wd, '%sc%d-%d' % (tag, i, attempt), BASE_WATCHDOG * CONFIRM_FACTOR)
+            if last['status'] == 'ok':
+                break
+        if last['status'] == 'ok':
+            key = {'hang': 'not_reproduced_hangs', 'crash': 'not_reproduced_crashes', 'norun': 'not_reproduced_startup_failures'}[kind]
+            stats[key] = stats.get(key, 0) + 1
+            res[i] = last
+        else:
+            last['detail'] = 'confirmed: failed again in 2 serial reruns with a %d s watchdog; %s' % (BASE_WATCHDOG * CONFIRM_FACTOR, last.get('detail'))
+            res[i] = last
+            CONFIRMED[last['status']] = True
     return res
 
 
-def run_model(items, wd, jobs=8, shard=300):
+def run_model(items, wd, jobs=8, shard=300, stats=None):
     """items: list of (np, ops_term) -> list of (trace_head, trace_fixed, headok_head, headok_fixed)"""
     shards = [items[i:i + shard] for i in range(0, len(items), shard)]
 
-    def one(args):
+    def one(args, timeout=900):
         si, its = args
         p = os.path.join(wd, 'cases_%d.v' % si)
         open(p, 'w').write(G.cases_v(its))
-        rc, out = C.sh(['coqc', '-Q', C.COQ, 'Pnc', '-w', '-all', p], timeout=1200, cwd=wd)
+        rc, out = C.sh(['coqc', '-Q', C.COQ, 'Pnc', '-w', '-all', p], timeout=timeout, cwd=wd)
+        if rc == -9:
+            return None                       # watchdog: confirmed serially below
         if rc != 0:
             raise C.BuildFailure('model evaluation failed (cases_%d.v):\n%s' % (si, out[-2000:]))
         r = G.parse_coq_out(out)
@@ -145,10 +175,22 @@ def run_model(items, wd, jobs=8, shard=300):
             raise C.BuildFailure('model evaluation: %d results for %d cases' % (len(r), len(its)))
         return r
 
-    res = []
+    parts = []
     with cf.ThreadPoolExecutor(max_workers=jobs) as ex:
         for r in ex.map(one, list(enumerate(shards))):
-            res.extend(r)
+            parts.append(r)
+    for si, r in enumerate(parts):
+        if r is None:
+            # a shard of 300 small histories takes seconds; a watchdog here is machine load: serial rerun, 4x
+            r = one((si, shards[si]), timeout=3600)
+            if r is None:
+                raise C.BuildFailure('model evaluation of cases_%d.v exceeded 3600 s run alone' % si)
+            if stats is not None:
+                stats['not_reproduced_model_timeouts'] = stats.get('not_reproduced_model_timeouts', 0) + 1
+            parts[si] = r
+    res = []
+    for r in parts:
+        res.extend(r)
     return res
 
 
@@ -177,11 +219,11 @@ def regen(spec, seed):
 def evaluate(ctx, hists, impl, wd, variant, stats, tag):
     """run on implementation + model, oracle + correspondence.  Returns (oracle_fails, disagreements)"""
     t0 = time.time()
-    res = run_impl(hists, impl, wd, tag=tag)
+    res = run_impl(hists, impl, wd, tag=tag, stats=stats)
     stats['impl_s'] = stats.get('impl_s', 0) + round(time.time() - t0, 1)
     ok = [d for d in res if d['status'] == 'ok']
     t0 = time.time()
-    mres = run_model([(d['h'].np, d['h'].model_ops(d['lay'])) for d in ok], wd)
+    mres = run_model([(d['h'].np, d['h'].model_ops(d['lay'])) for d in ok], wd, stats=stats)
     stats['model_s'] = stats.get('model_s', 0) + round(time.time() - t0, 1)
     oracle_fails = []; disagreements = []
     for d in res:
@@ -199,7 +241,7 @@ def evaluate(ctx, hists, impl, wd, variant, stats, tag):
             stats['with_sleeps'] += 1
         if d['status'] != 'ok':
             stats[d['status']] = stats.get(d['status'], 0) + 1
-            if d['status'] != 'norun':
+            if d['status'] in ('hang', 'crash'):       # confirmed twice serially; norun / *-unconfirmed are counted only
                 oracle_fails.append((h, [dict(kind=d['status'], step=-1, stepkind='run', detail=str(d.get('detail'))[-400:])], d))
     for d, m in zip(ok, mres):
         h = d['h']
@@ -265,6 +307,7 @@ def report(ctx, oracle_fails, disagreements, proof_ok, pr, variant, vdetail):
 
 
 def run(ctx):
+    CONFIRMED.clear()
     lib = C.libdir()
     impl = S.impl_exe(lib)
     wd = C.scratch()
